@@ -43,7 +43,29 @@ func newInstance(c Cfg) *plenc.Plenc {
 	return p
 }
 
+var (
+	sessID   = -1
+	sessInst = map[Cfg]*plenc.Plenc{}
+)
+
+// instanceFor returns a fresh instance, or the instance shared by the case's session.
+func instanceFor(h *caseHdr) *plenc.Plenc {
+	if h.Sess == nil {
+		return newInstance(h.Cfg)
+	}
+	if *h.Sess != sessID {
+		sessID, sessInst = *h.Sess, map[Cfg]*plenc.Plenc{}
+	}
+	p, ok := sessInst[h.Cfg]
+	if !ok {
+		p = newInstance(h.Cfg)
+		sessInst[h.Cfg] = p
+	}
+	return p
+}
+
 type caseHdr struct {
+	Sess *int           `json:"sess"` // cases of one session share a Plenc instance (history); nil = fresh instance
 	Ev  string          `json:"ev"`
 	ID  int             `json:"id"`
 	Cfg Cfg             `json:"cfg"`
@@ -234,14 +256,16 @@ func execCodec(h *caseHdr, ev M) any {
 		"backUTC": true, "laws": []any{}}
 	var gt reflect.Type
 	var in reflect.Value
-	p := newInstance(h.Cfg)
+	p := instanceFor(h)
 	panicked, where, msg := guard(func() {
 		gt = abs.GoType(h.T)
 		in = reflect.New(gt)
 		abs.Build(h.T, decodeAny(h.V), in.Elem())
 	})
 	if panicked {
-		panic("harness failed to build the case: " + msg + " " + where)
+		// a defect of the harness or of the case generator, never of plenc: reported as broken machinery
+		out["kind"], out["msg"] = "harness-error", "harness failed to build the case: "+msg
+		return out
 	}
 	panicked, where, msg = guard(func() {
 		data, merr := p.Marshal(nil, in.Interface())
